@@ -69,6 +69,15 @@ class JobFailed(Exception):
     pass
 
 
+class JobKilled(BaseException):
+    """not an Exception: what sys.exit(), Ctrl-C or a harness killing a body
+    look like"""
+
+
+RAISES = {'raise': JobFailed, 'raise-base': JobKilled, 'raise-exit': SystemExit,
+          'raise-interrupt': KeyboardInterrupt}
+
+
 class TJob(job_control.Job):
     def __init__(self, name, hist, kind, length):
         self.name, self.hist, self.kind, self.length = name, hist, kind, length
@@ -88,8 +97,8 @@ class TJob(job_control.Job):
             else:
                 for _ in range(self.length):
                     s.switch('body')
-            if self.kind == 'raise':
-                raise JobFailed(self.name)
+            if self.kind in RAISES:
+                raise RAISES[self.kind](self.name)
         finally:
             self.hist.append(('end', self.name, len(self.hist)))
 
@@ -107,7 +116,10 @@ def gen_scenario(rng):
             r = rng.random()
             jid += 1
             name = 'j{}'.format(jid)
-            kind = rng.choice(['finish', 'finish', 'finish', 'raise', 'loop'])
+            kind = rng.choice(['finish', 'finish', 'finish', 'raise', 'loop',
+                               'finish', 'finish', 'raise', 'loop',
+                               rng.choice(['raise-base', 'raise-exit',
+                                           'raise-interrupt'])])
             length = rng.randint(0, 3)
             if r < 0.5:
                 ops.append(('add', name, kind, length))
@@ -115,14 +127,17 @@ def gen_scenario(rng):
                 ops.append(('insert', name, kind, length))
             elif r < 0.9:
                 ops.append(('spawn', 'bg{}'.format(jid), rng.choice(
-                    ['finish', 'raise', 'loop']), length))
+                    ['finish', 'raise', 'loop', 'finish', 'loop',
+                     'raise-base', 'raise-exit']), length))
                 kind = ops[-1][2]
             else:
                 jid -= 1
-                # (clear_queue is outside the property's quantifier: only
-                # add/insert/spawn calls and stops are interleaved)
+                # (clear_queue is not in the property's quantifier, but "every
+                # queued job that is not explicitly cleared" is in its
+                # statement: a job may stay unexecuted only if some
+                # linearisation has it in the queue when a clear takes effect)
                 ops.append((rng.choice(['stop_current', 'status',
-                                        'stop_current']),))
+                                        'stop_current', 'clear']),))
                 continue
             has_loop = has_loop or kind == 'loop'
         clients.append(ops)
@@ -305,7 +320,8 @@ def analyse(ctx, out, clients, replay):
                       if mech != 'invariant' else mech, p, replay)
         return False
     for te in out['thread_exc']:
-        if te[1] != 'JobFailed':
+        if te[1] not in ('JobFailed', 'JobKilled', 'SystemExit',
+                         'KeyboardInterrupt'):
             ctx.violation('thread-exception:' + te[1],
                           '{} in thread {} at {}'.format(te[2], te[0],
                                                          te[3][-1:]), replay)
@@ -416,6 +432,11 @@ def run_shard(ctx):
             ctx.count('completion_inside_concurrent_enqueue')
         ctx.count('scheduler_steps', out['steps'])
         ctx.count('policy:' + policy)
+        for ops in clients:
+            for op in ops:
+                ctx.count('call:' + op[0])
+                if len(op) > 2:
+                    ctx.count('body:' + op[2])
         ctx.extra.setdefault('hist', set())
         if analyse(ctx, out, clients, replay):
             ctx.count('histories_ok')
@@ -435,7 +456,7 @@ def finalize(merged):
             c.get('completion_inside_concurrent_enqueue', 0),
         'scheduler_steps': c.get('scheduler_steps', 0)}
     for need in ('histories_ok', 'completion_inside_concurrent_enqueue',
-                 'policy:pct'):
+                 'policy:pct', 'call:clear', 'body:raise-base', 'body:loop'):
         if not c.get(need) and not merged['violations']:
             merged['inconclusive'].append('monitor observed nothing: ' + need)
 
